@@ -115,6 +115,14 @@ def faults(s, hrp, case, cls):
                     t = s[:i] + c + s[i + 1:]
                     cmp_decode(hrp, t, must_reject=True, cls=cls, tag='sub1')
                     n += 1
+    if case.get('single', True):
+        # the UPPER-CASE rendering (equally valid) with look-alikes of its letters: KELVIN SIGN for K, and the characters whose
+        # lower() is an alphabet character - a decoder that folds case before it checks the character range would accept them
+        U = s.upper()
+        for i in range(L):
+            for c in gen.confusables(U[i]) + gen.confusables(s[i]):
+                cmp_decode(hrp, U[:i] + c + U[i + 1:], must_reject=True, cls=cls, tag='sub1-upper')
+                n += 1
     for i, j, a, b in case.get('doubles', []):
         i = dp + i % (L - dp)
         j = dp + j % (L - dp)
@@ -297,7 +305,28 @@ def t_codec_grid(ctx):
                 if 1 <= n_h <= 84:
                     for hrp in ('a' * n_h, ('x1' * n_h)[:n_h], ('~' * n_h)):
                         ctx.run({'kind': 'codec', 'hrp': hrp, 'ver': ver, 'prog': bytes(range(L)).hex()})
-        ctx.exhaustive.append('4 HRPs x versions 0..17 x program lengths 0..42 (codec); CBech32Data on the matching chains; '
+        # valid strings that contain NO LETTER at all (all-digit prefix, version, program symbols and checksum): found by
+        # enumeration, since the checksum has to come out as digits too; the single-case rule is vacuous for them
+        digit_syms = [i for i, ch in enumerate(CH) if ch.isdigit()]
+        found = 0
+        for hrp_d in ('42', '7', '000'):
+            for k in range(60000):
+                if found >= 6:
+                    break
+                ver = [v for v in digit_syms if v <= 16][k % 4]
+                nsym = [4, 8, 16, 24][(k // 4) % 4]             # 4 symbols = 20 bits -> 2 bytes + 4 zero padding bits, etc.
+                body, kk = [], k // 16
+                for _ in range(nsym):
+                    body.append(digit_syms[kk % 9])
+                    kk //= 9
+                pad = (nsym * 5) % 8
+                if pad and body[-1] & ((1 << pad) - 1):
+                    continue
+                t = raw_string(hrp_d, [ver] + body)
+                if t[len(hrp_d) + 1:].isdigit() and R.decode(hrp_d, t) is not None:
+                    found += 1
+                    ctx.run({'kind': 'anystring', 'hrp': hrp_d, 's': t})
+        ctx.exhaustive.append('4 HRPs x versions 0..17 x program lengths 0..42 (codec); %d valid strings without any letter; CBech32Data on the matching chains; ' % found +
                               'total lengths 88..92 via long prefixes')
 
 
